@@ -39,7 +39,16 @@ THEOREMS = [
     'CpProofs.C18.final_state_full_false',
     'CpProofs.C18.all_run_with_failing_log_false',
 ]
-X_THEOREMS = []          # filled below (second-generation theorems, CpProofs.C18X)
+X_THEOREMS = [
+    'publishX_frame', 'callX_frame', 'publishX_snapshot', 'publishX_pres', 'publishX_nc',
+    'lifecycle_trace_nocalls', 'paths_follow_documented_graph', 'publishX_all_run_reentrant',
+    'final_state_reentrant_calls', 'unsubscribed_during_publish_still_runs', 'subscribed_during_publish_waits',
+    'reprioritised_during_publish_keeps_order', 'start_listeners_see_STARTING_reentrant_false',
+    'exit_returns_not_EXITING', 'effPrio_spec', 'cleanExit_spec', 'waitW_returns_in_target',
+    'gen_states', 'gen_builtin_channels', 'gen_default_priority', 'gen_exit_code', 'gen_transitions_match',
+    'gen_priority_rows',
+]
+THEOREMS += ['CpProofs.C18X.' + t for t in X_THEOREMS]
 TRUSTED_BASE = [
     'os._exit / os.execv / atexit / time.sleep / threading.Thread are outcomes or inputs of the model, not executed',
     'Python set iteration order inside a priority tie is arbitrary: journals are compared modulo '
@@ -55,7 +64,24 @@ LEVEL = 'proof'
 TECHNIQUE = ('Lean 4 proof: refinement of Bus.publish/start/stop/exit to a declarative loop spec and frame / snapshot / '
              'invariant inductions over fuel, listener list and script for re-entrant listeners; model tied to '
              'wspbus.Bus by a differential journal comparison and by tables regenerated from the live module')
-LEVEL_TEXT = ''          # set below
+LEVEL_TEXT = ('Proved in Lean for every listener list and failure pattern. Non-re-entrant listeners, non-raising log '
+              'listeners: publish invokes a stable-sorted permutation of the subscribers exactly once and reports exactly '
+              'the raisers; start/stop/exit journal their listeners in STARTING/STOPPING/EXITING, exit runs stop first, '
+              'returning calls end in the documented state, a failed start shuts down, a failure while exiting is '
+              'os._exit(70), SystemExit(0) after failures becomes 1. Re-entrant listeners (subscribe / unsubscribe / publish '
+              '/ start / stop / exit / restart / graceful from inside a listener, any depth): nested publishes are well '
+              'bracketed (publishX_frame); what a publish invokes itself is a prefix of the priority-sorted snapshot taken '
+              'at its entry, the whole snapshot when it returns (publishX_snapshot) and, with never-raising log listeners '
+              '(an invariant, publishX_pres), also when it raises ChannelFailures (publishX_all_run_reentrant); without '
+              'lifecycle calls from listeners publish never touches state/execv/atexit (publishX_nc) and every lifecycle '
+              'call follows a path of documented edges and ends in its last state, F19/F22 included '
+              '(lifecycle_trace_nocalls); with lifecycle calls start->STARTED and stop->STOPPED still hold '
+              '(final_state_reentrant_calls) while the claims that fail are proved false with witnesses replayed on the '
+              'real Bus (F19, F22, start_listeners_see_STARTING_reentrant_false, exit_returns_not_EXITING). The 25 '
+              'transitions of the listener-free bus, the priority routes, the built-in channels, the states and the exit '
+              'code are tables measured on the live module with a theorem each. Correspondence only: wait / block / '
+              'start_with_callback / atexit / _do_execv outcomes, ChannelFailures and log(traceback) as data, exact '
+              'ChannelFailures contents for re-entrant listeners.')
 LEVEL_NOTE = ('Trusted: Lean kernel (axioms propext, Classical.choice, Quot.sound only), the hand model '
               'lean/CpModel/Bus.lean as validated by the differential run against a fresh wspbus.Bus per case, the '
               'harness. os._exit/os.execv/atexit/time.sleep/threads are outcomes or inputs of the model; set iteration '
@@ -203,9 +229,12 @@ class _ThreadingShim:
     def __getattr__(self, name):
         return getattr(self._real, name)
 
-    @staticmethod
-    def enumerate():
-        return []
+    def enumerate(self):
+        # what block() must skip (the main thread, daemons) and what it must join (a worker)
+        d = _FakeThread(name='daemon-worker', daemon=True)
+        n = _FakeThread(name='worker', daemon=False)
+        _FakeThread.made[:] = [t for t in _FakeThread.made if t is not d and t is not n]
+        return [self._real.main_thread(), d, n]
 
 
 class _SysShim:
@@ -505,8 +534,13 @@ def _run_case(tokens, wspbus, fake_atexit, tshim, var):
         elif f[0] == 'swc':
             called = []
             _FakeThread.made[:] = []
-            r1 = outcome(lambda: bus.start_with_callback(lambda *a, **k: called.append((a, k)),
-                                                         args=(1,), kwargs={'x': 2}))
+            if var % 2:
+                want = [((1,), {'x': 2})]
+                r1 = outcome(lambda: bus.start_with_callback(lambda *a, **k: called.append((a, k)),
+                                                             args=(1,), kwargs={'x': 2}))
+            else:
+                want = [((), {})]
+                r1 = outcome(lambda: bus.start_with_callback(lambda *a, **k: called.append((a, k))))
             rs = [r1]
             if not (isinstance(r1, str) and (r1.startswith('procexit') or r1 in ('execv', 'hang', 'deep'))):
                 tshim.reset()
@@ -514,7 +548,7 @@ def _run_case(tokens, wspbus, fake_atexit, tshim, var):
                 for t in list(_FakeThread.made):
                     if t.started and t.target is not None:
                         r2 = outcome(lambda: t.target(*t.args, **t.kwargs))
-                if r2 == 'ret' and called != [((1,), {'x': 2})]:
+                if r2 == 'ret' and called != want:
                     r2 = 'callback-not-called' if not called else 'callback-wrong-args'
                 rs.append(r2)
         elif f[0] in METHODS:
@@ -1073,6 +1107,7 @@ def run(ctx):
         if e.get('status') == 'known':
             check_cases(ctx, [e['witness']['tokens']], compare=True, cov=cov)
     check_cases(ctx, corpus_cases(), cov=cov)
+    check_cases(ctx, coverage_cases(), cov=cov)
     unit_checks(ctx, cov)
     n = ctx.budget(2500, 60000)
     cases = [gen_case(ctx.rng, big=(i % 10 == 9)) for i in range(n)]
@@ -1115,9 +1150,215 @@ def replay(ctx, case):
     check_cases(ctx, [toks])
 
 
+def T(text):
+    return '-' if text == '' else '.'.join(str(ord(c)) for c in text)
+
+
 def unit_checks(ctx, cov=None):
-    pass
+    """`ChannelFailures` and `Bus.log(msg, level, traceback)` against the model (CF / logArgs)."""
+    import traceback as tb_mod
+    try:
+        from cherrypy.process import wspbus
+    except Exception:
+        return
+    if cov is not None:
+        cov.start(wspbus)
+    lines, real = [], []
+    try:
+        for n in (0, 1, 2, 5, ctx.rng.randint(3, 9)):
+            excs = [ctx.rng.randint(0, 99) for _ in range(n)]
+            try:
+                cf = wspbus.ChannelFailures()
+                before = bool(cf)
+                for e in excs:
+                    try:
+                        raise ValueError(e)
+                    except ValueError:
+                        cf.handle_exception()
+                inst = cf.get_instances()
+                inst.append('not shared')            # get_instances() returns a copy
+                got = 'CF=%d:%s' % (1 if cf else 0, '/'.join(str(x.args[0]) for x in cf.get_instances()))
+                if before:
+                    got = 'CF=fresh instance is truthy'
+            except Exception as e:
+                got = 'exc:%s' % type(e).__name__
+            lines.append('cf:%s' % ('.'.join(map(str, excs)) or '-'))
+            real.append(got)
+        for tb in (0, 1):
+            for active in (0, 1):
+                level = ctx.rng.choice([10, 20, 30, 40])
+                msg = 'probe message %d' % ctx.rng.randint(0, 999)
+                seen = []
+                try:
+                    bus = wspbus.Bus()
+                    bus.subscribe('log', lambda m, l: seen.append((m, l)))
+                    if active:
+                        try:
+                            raise KeyError('k%d' % level)
+                        except KeyError:
+                            exc_text = ''.join(tb_mod.format_exception(*sys.exc_info()))
+                            bus.log(msg, level, bool(tb))
+                    else:
+                        exc_text = ''.join(tb_mod.format_exception(*sys.exc_info()))
+                        if tb:
+                            bus.log(msg, level=level, traceback=True)
+                        else:
+                            bus.log(msg, level)
+                    got = 'LOG=%s:%s' % (T(seen[0][0]), seen[0][1]) if len(seen) == 1 else 'LOG=%d calls' % len(seen)
+                except Exception as e:
+                    got = 'exc:%s' % type(e).__name__
+                    exc_text = ''
+                lines.append('log:%d:%d:%s:%s' % (tb, level, T(msg), T(exc_text)))
+                real.append(got)
+    finally:
+        if cov is not None:
+            cov.stop()
+    model = ctx.model(lines)
+    for i, l in enumerate(lines):
+        ctx.case({'unit': l[:80]}, nontrivial=True, key=l)
+        ctx.count('unit:' + l.split(':')[0])
+        if model is not None:
+            ctx.compared()
+            if model[i] != real[i]:
+                ctx.disagree({'unit': l}, real[i][:300], model[i][:300], 'ChannelFailures / Bus.log differ from the model')
+
+
+def coverage_cases():
+    """Deterministic cases that steer the harness variants (platform, cloexec, argv fallback, thread list,
+    callback arguments) through `_do_execv`, `block` and `start_with_callback`."""
+    out = []
+    for i in range(30):
+        out.append(['unsub:c9:%d' % (900 + i), 'restart', 'block:-'])
+    for i in range(4):
+        out.append(['unsub:c9:%d' % (900 + i), 'swc', 'exit'])
+    out.append(['sub:main:1:50:ok:c~restart', 'start', 'block:o.o'])
+    out.append(['start', 'block:k'])
+    out.append(['start', 'block:x3'])
+    out.append(['start', 'block:i', 'atexit'])
+    out.append(['start', 'atexit', 'atexit'])
+    out.append(['start', 'start', 'atexit'])
+    out.append(['sub:start:1:50:raise:-', 'start', 'atexit'])
+    return out
+
+
+# ----------------------------------------------------------------------------------------------
+# tables regenerated from the live module (lean/CpModel/Gen/C18Tables.lean)
+# ----------------------------------------------------------------------------------------------
+ST_CODE = {n: i for i, n in enumerate(STATE_NAMES)}
+CH_CODE = {'start': 0, 'stop': 1, 'exit': 2, 'graceful': 3, 'log': 4, 'main': 5}
+
+
+def _measure_priority(wspbus, arg, attr):
+    """Effective priority of a listener subscribed with (argument, attribute), measured through the
+    invocation order against a reference listener at p + 0.5 (no ties): smallest p it runs before."""
+    def runs_first(p):
+        bus = wspbus.Bus()
+        order = []
+
+        class L:
+            def __init__(self, n):
+                self.n = n
+
+            def __call__(self, *a, **k):
+                order.append(self.n)
+        x, ref = L('x'), L('r')
+        if attr is not None:
+            x.priority = attr
+        if arg is None:
+            bus.subscribe('c', x)
+        else:
+            bus.subscribe('c', x, arg)
+        bus.subscribe('c', ref, p + 0.5)
+        bus.publish('c')
+        return order[:1] == ['x']
+    lo, hi = 0, 1024
+    if not runs_first(hi):
+        return 9999
+    while lo < hi:
+        mid = (lo + hi) // 2
+        if runs_first(mid):
+            hi = mid
+        else:
+            lo = mid + 1
+    return lo
+
+
+def _measure_tables():
+    import os as _os
+    from cherrypy.process import wspbus
+    names = [n for n, v in vars(wspbus.states).items() if isinstance(v, wspbus._StateEnum.State)]
+    state_codes = [ST_CODE.get(n, 9) for n in names]
+    chans = sorted(CH_CODE.get(c, 9) for c in getattr(wspbus.Bus(), 'listeners', {}))
+    rows = []
+    exit_codes = set()
+    saved = (wspbus.os, wspbus.atexit)
+    wspbus.os = _OsShim(_os)
+    wspbus.atexit = _FakeAtexit()
+    try:
+        for sn in STATE_NAMES:
+            for mi, m in enumerate(METHODS):
+                trace = []
+
+                class TB(wspbus.Bus):
+                    def __setattr__(self, k, v):
+                        if k == 'state' and trace is not None and getattr(self, '_rec', False):
+                            trace.append(ST_CODE.get(getattr(v, 'name', None), 9))
+                        object.__setattr__(self, k, v)
+                bus = TB()
+                bus.state = getattr(wspbus.states, sn)
+                object.__setattr__(bus, '_rec', True)
+                try:
+                    getattr(bus, m)()
+                    res = 0
+                except _ProcExit as e:
+                    res = 1000 + int(e.code)
+                    exit_codes.add(int(e.code))
+                except BaseException:
+                    res = 2000
+                rows.append((ST_CODE[sn], mi, dedup(trace), res, bool(bus.execv)))
+    finally:
+        wspbus.os, wspbus.atexit = saved
+    prio = [(a, t, _measure_priority(wspbus, a, t)) for a in (None, 0, 10) for t in (None, 0, 70)]
+    return state_codes, chans, rows, sorted(exit_codes), prio
 
 
 def tables(ctx):
-    return {}
+    try:
+        state_codes, chans, rows, exit_codes, prio = _measure_tables()
+    except Exception as e:     # the module is broken: the table says so, the proof obligation fails
+        state_codes, chans, rows, exit_codes, prio = [9], [9], [], [], []
+        ctx.note('tables: measuring wspbus failed: %r' % (e,))
+
+    def opt(x):
+        return 'none' if x is None else '(some %d)' % x
+    default = [e for a, t, e in prio if a is None and t is None]
+    src = ['/- GENERATED by harness/c18.py from the live cherrypy.process.wspbus; do not edit. -/',
+           'namespace CpModel.Gen.C18',
+           '',
+           '/-- the states defined on `wspbus.states`, in definition order, as indices into `CpModel.Bus.St`',
+           '    (STOPPED STARTING STARTED STOPPING EXITING; 9 = a state the model does not know) -/',
+           'def stateCodes : List Nat := %s' % json.dumps(state_codes),
+           '',
+           '/-- the channels a fresh `Bus()` has (start stop exit graceful log main = 0..5; 9 = unknown), sorted -/',
+           'def builtinChannelCodes : List Nat := %s' % json.dumps(chans),
+           '',
+           '/-- priority of a listener subscribed without priority argument or attribute (measured) -/',
+           'def defaultPriority : Nat := %d' % (default[0] if default else 9999),
+           '',
+           '/-- every code `os._exit` was called with while driving a listener-free bus through all transitions -/',
+           'def exitCodes : List Nat := %s' % json.dumps(exit_codes),
+           '',
+           '/-- (state before, method start/stop/exit/restart/graceful = 0..4, states assigned in order,',
+           '    result: 0 returned / 1000+c os._exit(c) / 2000 other, execv afterwards) on a listener-free bus -/',
+           'def transitions : List (Nat × Nat × List Nat × Nat × Bool) := [']
+    src += ['  (%d, %d, %s, %d, %s)%s' % (a, b, json.dumps(c), d, 'true' if e else 'false',
+                                         ',' if i + 1 < len(rows) else '')
+            for i, (a, b, c, d, e) in enumerate(rows)]
+    src += [']', '',
+            '/-- (priority argument, `priority` attribute of the callable, effective priority measured through the',
+            '    invocation order) -/',
+            'def prioRows : List (Option Nat × Option Nat × Nat) := [']
+    src += ['  (%s, %s, %d)%s' % (opt(a), opt(t), e, ',' if i + 1 < len(prio) else '')
+            for i, (a, t, e) in enumerate(prio)]
+    src += [']', '', 'end CpModel.Gen.C18', '']
+    return {'CpModel/Gen/C18Tables.lean': '\n'.join(src)}
